@@ -125,7 +125,13 @@ RULE = ("pipelines on machines 1x1..8x8 (quick) / ..24x24 (thorough), torus / me
         "injected")
 
 PLACERS = ["sa-python", "sa-c", "hilbert", "rcm", "breadth_first", "sequential", "rand"]
-RADII = [0, 1, 2, 20]
+RADII = [0, 1, 2, 20, True, 1000, None]      # True: a bool is an int; None: the argument is omitted (default 20)
+
+
+def radius_value(r):
+    """the radius the router uses"""
+    return 20 if r is None else int(r)
+
 METHODS = {"default": ["rd", "oc"], "rd": ["rd"], "oc": ["oc"], "none": []}
 TARGETS = [None, 0, "small", "exact", "large"]
 APIS = ["manual", "manual", "manual-sysinfo", "wrapper", "deprecated"]
@@ -320,7 +326,25 @@ def gen_extras(rng):
                 apps=rng.random() < 0.5,                 # non-empty vertices_applications
                 route_call=rng.choice(["pos", "kw", "omit"]),        # how the hand-chained caller names core_resource
                 tables_api=rng.choice(["rt2t", "rt2t", "rt2t", "brt", "brt-keep"]),   # deprecated build_routing_tables
-                methods_tuple=rng.random() < 0.5, kwargs_style=rng.choice(["dict", "none"]))
+                methods_tuple=rng.random() < 0.5, kwargs_style=rng.choice(["dict", "none"]),
+                **gen_kinds(rng))
+
+
+VKINDS = ["int", "int", "str", "tuple", "namedtuple", "frozenset", "obj", "bigint", "mixed"]
+
+
+def gen_kinds(rng):
+    """the KINDS of the arguments (checklist: every argument in every kind the API legally accepts) and the
+    environment parameters every earlier generator fixed"""
+    return dict(
+        vkind=rng.choice(VKINDS),                  # what a vertex is: any hashable
+        subclass=rng.random() < 0.3,               # instances of subclasses of rig's Machine / Net / constraints / entries
+        coll=rng.randrange(4),                     # tuples / frozensets / OrderedDict / defaultdict where a collection goes
+        big=rng.choice([None, None, None, None, 31, 32, 53, 63, 64, 100]),   # SDRAM quantities around 2**big
+        states=rng.random() < 0.5,                 # busy cores in every non-idle AppState, not only `run`
+        memvar=rng.random() < 0.4,                 # SDRAM / SRAM differ between the chips of one machine
+        omit=rng.random() < 0.4,                   # optional arguments at their default are not passed at all
+        big_weight=rng.random() < 0.15)
 
 
 def gen_cfg(rng, i=None):
@@ -329,6 +353,9 @@ def gen_cfg(rng, i=None):
                target=rng.choice(TARGETS + [None, None, "large", "large"]), target_dict=rng.random() < 0.5,
                api=rng.choice(APIS))
     cfg.update(gen_extras(rng))
+    if cfg["placer"] == "sa-c":
+        # the C kernel keeps resource amounts in 32-bit ints (OverflowError beyond; reported, outside this property)
+        cfg["big"] = None
     return cfg
 
 
@@ -352,9 +379,9 @@ def res_ids(prob):
         if r is None:
             out.append(dflt)
         elif r[0] == "str":
-            out.append(str(r[1]))
+            out.append(str(r[1]) + " %s {} {0}")       # format characters: identifiers end up in error messages
         elif r[0] == "tuple":
-            out.append(("resource", str(r[1])))
+            out.append(("resource", str(r[1]), "%d"))
         else:
             out.append(ResId(r[1]))
     return tuple(out)
@@ -363,6 +390,84 @@ def res_ids(prob):
 # --------------------------------------------------------------------------------------------
 # python objects
 # --------------------------------------------------------------------------------------------
+class VObj(object):
+    """a vertex that is a plain object (hashable by identity)"""
+
+    def __init__(self, n):
+        self.n = n
+
+    def __repr__(self):
+        return "<vertex %d>" % self.n
+
+
+def vertex_objects(prob):
+    """int vertex of the problem description -> the hashable object the caller uses as that vertex"""
+    import collections
+    kind = prob["cfg"].get("vkind") or "int"
+    VT = collections.namedtuple("VT", "index label")
+    kinds = ["str", "tuple", "namedtuple", "frozenset", "obj", "bigint", "int"]
+    out = {}
+    for v, _, _ in prob["vr"]:
+        k = kinds[v % len(kinds)] if kind == "mixed" else kind
+        if k == "str":
+            out[v] = "v%d %%s {} {0} %%" % v
+        elif k == "tuple":
+            out[v] = [(), (v,), ("v", v), ("a", v, "{}%s")][v % 4] if v else ()
+            if v and out[v] == ():
+                out[v] = (v, v)
+        elif k == "namedtuple":
+            out[v] = VT(v, "x")
+        elif k == "frozenset":
+            out[v] = frozenset([v, "v"])
+        elif k == "obj":
+            out[v] = VObj(v)
+        elif k == "bigint":
+            out[v] = v + [1 << 31, 1 << 32, (1 << 53) + 1, 1 << 63, 1 << 64, 1 << 100][v % 6]
+        else:
+            out[v] = v
+    return out
+
+
+_SUBCLASSES = {}
+
+
+def subclasses():
+    """trivial subclasses of rig's own classes (re-made when the rig modules were reloaded)"""
+    from rig.place_and_route import Machine
+    from rig.place_and_route.constraints import (LocationConstraint, SameChipConstraint, ReserveResourceConstraint,
+                                                 RouteEndpointConstraint)
+    from rig.netlist import Net
+    from rig.routing_table import RoutingTableEntry
+    if _SUBCLASSES.get("base") is not Machine:
+        _SUBCLASSES.clear()
+        _SUBCLASSES["base"] = Machine
+        for name, base in (("Machine", Machine), ("Net", Net), ("Loc", LocationConstraint), ("Same", SameChipConstraint),
+                           ("Res", ReserveResourceConstraint), ("Ep", RouteEndpointConstraint),
+                           ("RTE", RoutingTableEntry)):
+            _SUBCLASSES[name] = type("My" + base.__name__, (base,), {"__slots__": ()} if name == "RTE" else {})
+    return _SUBCLASSES
+
+
+class SinkList(list):
+    """a list subclass (Net copies `sinks` when it is a list)"""
+
+
+def chip_memory(prob):
+    """(x, y) -> (sdram, sram) of the chip; with `memvar` the chips of one machine differ"""
+    base = prob["sdram"]
+    big = prob["cfg"].get("big")
+    if big:
+        base += (1 << big) + (1 if big == 53 else 0)
+    out = {}
+    r = _random.Random(prob["seed"] ^ 0x2545f)
+    for c in sorted(cores_map(prob)):
+        if prob["cfg"].get("memvar") and r.random() < 0.5:
+            out[c] = (base + r.choice([-prob["sdram"] // 2, 1000000, 4, 0]), r.choice([0, 5, 1000, 1 << 20]))
+        else:
+            out[c] = (base, 1000)
+    return out
+
+
 def busy_map(prob):
     return {(x, y): list(b) for x, y, b in prob["busy"]}
 
@@ -383,11 +488,15 @@ def build_sysinfo(prob):
     busy = busy_map(prob)
     rtr = {(x, y): k for x, y, k in prob["rtr_exc"]}
     chips = {}
+    mem = chip_memory(prob)
+    nonidle = [st for st in AppState if st != AppState.idle]
+    r = _random.Random(prob["seed"] ^ 0x51f15)
     for (x, y), k in cores_map(prob).items():
-        states = [AppState.run if i in busy.get((x, y), ()) else AppState.idle for i in range(k)]
+        states = [(r.choice(nonidle) if prob["cfg"].get("states") else AppState.run)
+                  if i in busy.get((x, y), ()) else AppState.idle for i in range(k)]
         chips[(x, y)] = ChipInfo(num_cores=k, core_states=states,
                                  working_links=set(Links(l) for l in range(6) if (x, y, l) not in dl),
-                                 largest_free_sdram_block=prob["sdram"], largest_free_sram_block=1000,
+                                 largest_free_sdram_block=mem[(x, y)][0], largest_free_sram_block=mem[(x, y)][1],
                                  largest_free_rtr_mc_block=rtr.get((x, y), prob["rtr"]),
                                  ethernet_up=(x, y) == (0, 0), ip_address="127.0.0.1", local_ethernet_chip=(0, 0))
     return SystemInfo(prob["w"], prob["h"], chips)
@@ -403,8 +512,9 @@ def runs_of(cores):
     return out
 
 
-def build(prob):
-    """-> dict of python objects for the implementation"""
+def build(prob, reuse=None):
+    """-> dict of python objects for the implementation; `reuse` = objects of an earlier build whose resource
+    identifiers and vertex objects are to be used again (the same caller maps a second application)"""
     from rig.place_and_route import Machine
     from rig.place_and_route.constraints import (LocationConstraint, SameChipConstraint, ReserveResourceConstraint,
                                                  RouteEndpointConstraint)
@@ -412,8 +522,21 @@ def build(prob):
     from rig.links import Links
     from rig.netlist import Net
     import collections
-    api = prob["cfg"]["api"]
-    Cores, SDRAM, SRAM = ids = res_ids(prob)      # the identifiers the caller names (default or application-defined)
+    cfg = prob["cfg"]
+    api = cfg["api"]
+    coll = cfg.get("coll") or 0
+    if cfg.get("subclass"):
+        sub = subclasses()
+        Machine, Net = sub["Machine"], sub["Net"]
+        LocationConstraint, SameChipConstraint = sub["Loc"], sub["Same"]
+        ReserveResourceConstraint, RouteEndpointConstraint = sub["Res"], sub["Ep"]
+    # the identifiers the caller names (default or application-defined)
+    Cores, SDRAM, SRAM = ids = reuse["ids"] if reuse else res_ids(prob)
+    V = vertex_objects(prob)
+    if reuse:
+        for v in V:
+            if v in reuse["V"]:
+                V[v] = reuse["V"][v]
     vr = collections.OrderedDict()
     for v, k, sd in prob["vr"]:
         d = {}
@@ -421,28 +544,35 @@ def build(prob):
             d[Cores] = k
         if sd:
             d[SDRAM] = sd
-        vr[v] = d
-    nets = [Net(s, list(k), wt) for s, k, wt, _, _ in prob["nets"]]
-    net_keys = {n: (p[3], p[4]) for n, p in zip(nets, prob["nets"])}
+        vr[V[v]] = d
+    wbig = (1 << 100) if cfg.get("big_weight") else None
+    nets = [Net(V[s], (SinkList if coll == 1 else list)(V[x] for x in k), wbig if (wbig and wt) else wt)
+            for s, k, wt, _, _ in prob["nets"]]
+    net_keys = (collections.OrderedDict if coll == 2 else dict)((n, (p[3], p[4])) for n, p in zip(nets, prob["nets"]))
     cs = []
     for v, x, y, l in prob["devices"]:
-        cs.append(LocationConstraint(v, (x, y)))
-        cs.append(RouteEndpointConstraint(v, Routes(l)))
+        cs.append(LocationConstraint(V[v], (x, y)))
+        cs.append(RouteEndpointConstraint(V[v], Routes(l)))
     for c in prob["cs"]:
         if c["t"] == "loc":
-            cs.append(LocationConstraint(c["v"], tuple(c["c"])))
+            cs.append(LocationConstraint(V[c["v"]], tuple(c["c"])))
         else:
-            cs.append(SameChipConstraint(list(c["vs"])))
-    o = dict(vr=vr, nets=nets, net_keys=net_keys, user_cs=cs, sysinfo=build_sysinfo(prob), ids=ids,
-             apps=({v: "app%d.aplx" % (v % 3) for v in vr} if prob["cfg"].get("apps") else {}))
+            cs.append(SameChipConstraint((tuple if coll == 3 else list)(V[x] for x in c["vs"])))
+    o = dict(vr=vr, nets=nets, net_keys=net_keys, user_cs=cs, sysinfo=build_sysinfo(prob), ids=ids, V=V,
+             Vinv={obj: v for v, obj in V.items()},
+             apps=({V[v]: "app%d.aplx" % (v % 3) for v, _, _ in prob["vr"]} if cfg.get("apps") else {}))
     if api in ("manual", "deprecated"):
         cm = cores_map(prob)
+        mem = chip_memory(prob)
+        dflt = mem[min(mem)] if mem else (prob["sdram"], 1000)
+        big = cfg.get("big")
         o["machine"] = Machine(prob["w"], prob["h"],
-                               chip_resources={Cores: prob["ncores"], SDRAM: prob["sdram"], SRAM: 1000},
-                               chip_resource_exceptions={c: {Cores: k, SDRAM: prob["sdram"], SRAM: 1000}
-                                                         for c, k in cm.items() if k != prob["ncores"]},
-                               dead_chips=set(map(tuple, prob["dead_chips"])),
-                               dead_links=set((x, y, Links(l)) for x, y, l in prob["dead_links"]))
+                               chip_resources={Cores: prob["ncores"], SDRAM: dflt[0], SRAM: dflt[1]},
+                               chip_resource_exceptions={c: {Cores: k, SDRAM: mem[c][0], SRAM: mem[c][1]}
+                                                         for c, k in cm.items() if k != prob["ncores"] or mem[c] != dflt},
+                               dead_chips=(frozenset if coll == 3 else set)(map(tuple, prob["dead_chips"])),
+                               dead_links=(frozenset if coll == 3 else set)(
+                                   (x, y, Links(l)) for x, y, l in prob["dead_links"]))
         res = []
         busy = busy_map(prob)
         # the deprecated wrapper reserves core 0 itself (unless told not to: reserve_monitor=False)
@@ -453,11 +583,14 @@ def build(prob):
         for c, b in busy.items():
             for a, e in runs_of([i for i in b if not (glob0 and i == 0)]):
                 res.append(ReserveResourceConstraint(Cores, slice(a, e), c))
+        if big:
+            # everything below 2**big is in use: the allocator works with positions beyond it
+            res.append(ReserveResourceConstraint(SDRAM, slice(0, (1 << big) + (1 if big == 53 else 0))))
         o["cs"] = res + cs
     return o
 
 
-def placer_call(name, seed, prob=None):
+def placer_call(name, seed, prob=None, V=None):
     """-> (function, kwargs); `pvar` of the configuration selects the optional arguments of the placer"""
     from rig.place_and_route.place import sequential, breadth_first, hilbert, rcm, rand
     from rig.place_and_route.place.sa import algorithm as sa
@@ -476,7 +609,7 @@ def placer_call(name, seed, prob=None):
     if name == "sequential":
         kw = {}
         if pvar in (1, 3):
-            vo = [v for v, _, _ in prob["vr"]]
+            vo = [V[v] if V else v for v, _, _ in prob["vr"]]
             if pvar == 1:
                 vo.reverse()
             else:
@@ -520,8 +653,25 @@ def target_for(cfg, n):
     return {"small": max(1, n // 2), "exact": n, "large": n + 10}[t]
 
 
-def run_pipeline(prob):
+class InjectedFault(Exception):
+    """raised by a stage callable of the harness (a caller's callback may fail)"""
+
+
+_HANGS = [0]
+
+
+def cpu_budget(prob):
+    """CPU seconds one pipeline run may use: ~100x what the largest ordinary case needs; 3 s once three calls have
+    not returned in this run"""
+    if _HANGS[0] >= 3:
+        return 3
+    return 240 if prob.get("scale") else 40
+
+
+def run_pipeline(prob, o=None, fail_at=None):
     """run the real pipeline; -> dict(status, placements, allocations, routes, tables0, tables1, targets, methods)
+    `o`: python objects to use (a caller calling again with the objects it already has); `fail_at`: the stage whose
+    callable raises InjectedFault (once) instead of running.
 
     The caller's view of the public interface is exercised as a user may legally use it: the three resource
     identifiers are rig's defaults or application-defined objects (passed to the wrappers / to build_machine,
@@ -535,35 +685,53 @@ def run_pipeline(prob):
     import rig.geometry as geometry
     from rig.place_and_route.route import utils as rutils
     import warnings
+    import collections
+    from . import common
     cfg = prob["cfg"]
-    o = build(prob)
+    if o is None:
+        o = build(prob)
     core_id, sdram_id, sram_id = o["ids"]
     custom = {"cores": core_id is not pr.Cores, "sdram": sdram_id is not pr.SDRAM, "sram": sram_id is not pr.SRAM}
+    coll = cfg.get("coll") or 0
+    omit = bool(cfg.get("omit"))
     _random.seed(prob["seed"])          # geometry.py / route/utils.py draw from the global generator
     orig_random = (geometry.random, rutils.random)
     if prob.get("c03_rseed") is not None:
         # the tie-provoking stand-in of the C03 harness (module attribute, no source change)
         geometry.random = rutils.random = c03.FakeRandom(prob["c03_rseed"], [])
-    place, pkw = placer_call(cfg["placer"], prob["seed"] ^ 0x5bd1, prob)
+    place, pkw = placer_call(cfg["placer"], prob["seed"] ^ 0x5bd1, prob, o["V"])
     rec = {}
 
     # custom stage callables: transparent pass-through (no assumption on how the wrapper calls them)
     def rec_place(*a, **kw):
+        if fail_at == "place":
+            raise InjectedFault("place")
         rec["placements"] = place(*a, **kw)
         return rec["placements"]
 
     def rec_alloc(*a, **kw):
+        if fail_at == "allocate":
+            raise InjectedFault("allocate")
         rec["allocations"] = pr.allocate(*a, **kw)
         return rec["allocations"]
 
     def rec_route(*a, **kw):
+        if fail_at == "route":
+            raise InjectedFault("route")
         rec["routes"] = pr.route(*a, **kw)
         return rec["routes"]
     out = dict(o=o, methods=METHODS[cfg["methods"]])
     meths = impl_methods(out["methods"])
+    if fail_at == "minimise" and meths:
+        first = meths[0]
+
+        def failing_method(table, target_length):
+            raise InjectedFault("minimise")
+        meths = [failing_method] + list(meths[1:])
     if cfg.get("methods_tuple"):
         meths = tuple(meths)
-    rkw = {"radius": cfg["radius"]}
+    rkw = {} if cfg["radius"] is None else {"radius": cfg["radius"]}
+    user_cs = o["user_cs"]
     # keyword arguments of the wrappers that are only named when they differ from the default / when asked to
     wkw = {}
     if custom["cores"] or cfg.get("kwargs_style") == "dict":
@@ -571,7 +739,7 @@ def run_pipeline(prob):
     if custom["sdram"] or cfg.get("kwargs_style") == "dict":
         wkw["sdram_resource"] = sdram_id
     try:
-        with warnings.catch_warnings():
+        with warnings.catch_warnings(), common.cpu_limit(cpu_budget(prob)):
             warnings.simplefilter("ignore")
             if cfg["api"] == "wrapper":
                 out["stage"] = "wrapper"
@@ -579,10 +747,19 @@ def run_pipeline(prob):
                     wkw["sram_resource"] = sram_id
                 if cfg.get("kwargs_style") == "dict":
                     wkw["allocate_kwargs"] = {}
-                _, _, _, final = pr.place_and_route_wrapper(
-                    o["vr"], o["apps"], o["nets"], o["net_keys"], o["sysinfo"], o["user_cs"],
-                    place=rec_place, place_kwargs=pkw, allocate=rec_alloc, route=rec_route,
-                    route_kwargs=rkw, minimise_tables_methods=meths, **wkw)
+                if not (omit and out["methods"] == ["rd", "oc"] and fail_at != "minimise"):
+                    wkw["minimise_tables_methods"] = meths
+                if not (omit and not rkw):
+                    wkw["route_kwargs"] = rkw
+                if omit and not user_cs:
+                    # `constraints` left at its default
+                    _, _, _, final = pr.place_and_route_wrapper(
+                        o["vr"], o["apps"], o["nets"], o["net_keys"], o["sysinfo"],
+                        place=rec_place, place_kwargs=pkw, allocate=rec_alloc, route=rec_route, **wkw)
+                else:
+                    _, _, _, final = pr.place_and_route_wrapper(
+                        o["vr"], o["apps"], o["nets"], o["net_keys"], o["sysinfo"], user_cs,
+                        place=rec_place, place_kwargs=pkw, allocate=rec_alloc, route=rec_route, **wkw)
                 out["targets"] = build_routing_table_target_lengths(o["sysinfo"])
                 out["tables0"] = routing_tree_to_tables(rec["routes"], o["net_keys"])
             elif cfg["api"] == "deprecated":
@@ -608,13 +785,24 @@ def run_pipeline(prob):
                         cs = build_core_constraints(o["sysinfo"]) + o["user_cs"]
                 else:
                     machine, cs = o["machine"], o["cs"]
+                allkw = cfg.get("kwargs_style") == "dict" and omit
                 out["stage"] = "place"
-                rec_place(o["vr"], o["nets"], machine, cs, **pkw)
+                if allkw:
+                    rec_place(vertices_resources=o["vr"], nets=o["nets"], machine=machine, constraints=cs, **pkw)
+                else:
+                    rec_place(o["vr"], o["nets"], machine, cs, **pkw)
                 out["stage"] = "allocate"
-                rec_alloc(o["vr"], o["nets"], machine, cs, rec["placements"])
+                if allkw:
+                    rec_alloc(vertices_resources=o["vr"], nets=o["nets"], machine=machine, constraints=cs,
+                              placements=rec["placements"])
+                else:
+                    rec_alloc(o["vr"], o["nets"], machine, cs, rec["placements"])
                 out["stage"] = "route"
                 how = cfg.get("route_call", "pos")
-                if how == "omit" and not custom["cores"]:
+                if allkw:
+                    rec_route(vertices_resources=o["vr"], nets=o["nets"], machine=machine, constraints=cs,
+                              placements=rec["placements"], allocations=rec["allocations"], core_resource=core_id, **rkw)
+                elif how == "omit" and not custom["cores"]:
                     rec_route(o["vr"], o["nets"], machine, cs, rec["placements"], rec["allocations"], **rkw)
                 elif how == "kw":
                     rec_route(o["vr"], o["nets"], machine, cs, rec["placements"], allocations=rec["allocations"],
@@ -641,11 +829,33 @@ def run_pipeline(prob):
                         out["targets"] = {c: target_for(cfg, len(t)) for c, t in out["tables0"].items()}
                     else:
                         out["targets"] = cfg["target"]
-                    final = minimise_tables(out["tables0"], out["targets"], meths)
+                    tabs = out["tables0"]
+                    if cfg.get("subclass"):
+                        # the caller's tables hold instances of a subclass of RoutingTableEntry
+                        RTE = subclasses()["RTE"]
+                        tabs = {c: [RTE(*e) for e in t] for c, t in tabs.items()}
+                    if coll == 2:
+                        tabs = collections.OrderedDict(tabs)
+                    tg = out["targets"]
+                    if isinstance(tg, dict) and coll == 1:
+                        d = collections.defaultdict(lambda: None)
+                        d.update(tg)
+                        tg = d
+                    if omit and out["methods"] == ["rd", "oc"] and fail_at != "minimise":
+                        final = minimise_tables(tabs, tg)          # `methods` left at its default
+                    elif cfg.get("kwargs_style") == "dict":
+                        final = minimise_tables(routing_tables=tabs, target_lengths=tg, methods=meths)
+                    else:
+                        final = minimise_tables(tabs, tg, meths)
         out["status"] = "ok"
         out["tables1"] = final
     except (ImportError, SyntaxError):
         raise
+    except common.ImplHang as e:
+        _HANGS[0] += 1
+        out["status"] = "DidNotReturn"
+        out["error"] = e
+        out["traceback"] = str(e)
     except Exception as e:      # noqa
         name = type(e).__name__
         out["status"] = name
@@ -669,6 +879,12 @@ def tree_c10(node):
     for r, ch in node.children:
         ks.append([None if r is None else int(r), tree_c10(ch) if isinstance(ch, RoutingTree) else None])
     return {"c": [node.chip[0], node.chip[1]], "k": ks}
+
+
+def int_leaves(tree, vinv):
+    """the vertices on the leaves of a nested tree (c03.nest) back to the problem's vertex numbers"""
+    x, y, subs, leaves = tree
+    return [x, y, [[d, int_leaves(t, vinv)] for d, t in subs], [[r, vinv[v]] for r, v in leaves]]
 
 
 def tree_c03(node, budget):
@@ -714,7 +930,9 @@ def expected(prob, out):
     """per net: (source chip, cores [[x,y,p]], exits [[x,y,l]]) from placements/allocations/constraints only"""
     Cores = out["o"]["ids"][0]        # the cores resource identifier the caller named
     dev = {d[0]: d for d in prob["devices"]}
-    pl, al = out["placements"], out["allocations"]
+    V = out["o"]["V"]
+    pl = {v: out["placements"][obj] for v, obj in V.items() if obj in out["placements"]}
+    al = {v: out["allocations"][obj] for v, obj in V.items() if obj in out["allocations"]}
     res = []
     for s, sinks, wt, key, mask in prob["nets"]:
         cores, exits = set(), set()
@@ -761,6 +979,9 @@ def lean_requests(prob, out, rng):
     reqs.append(dict(mj, suite="c01", op="deliver", tables=[[c[0], c[1], t] for c, t in t0.items()],
                      dev=[[d[1], d[2], d[3]] for d in prob["devices"]], queries=queries))
     idx.append(("deliver0", qmeta))
+    if prob.get("scale"):
+        # far beyond the usual size: the delivery oracle only (the stage ties are exercised at ordinary sizes)
+        return reqs, idx
     # 2. C10 model on the implementation's trees
     c10nets = [{"key": p[3], "mask": p[4], "tree": tree_c10(routes[n])} for n, p in zip(nets, prob["nets"])]
     impl0 = {"ok": [[list(c), [c10.canon_entry(e) for e in es]] for c, es in out["tables0"].items()]}
@@ -771,7 +992,8 @@ def lean_requests(prob, out, rng):
     # 2b. the C01 bridge C03 tree -> C10 tree -> C10 tables -> C04 entries
     c03nets = []
     for n, p in zip(nets, prob["nets"]):
-        c03nets.append({"key": p[3], "mask": p[4], "tree": tree_c03(routes[n], [count_nodes(routes[n]) + 2])})
+        c03nets.append({"key": p[3], "mask": p[4],
+                        "tree": int_leaves(tree_c03(routes[n], [count_nodes(routes[n]) + 2]), out["o"]["Vinv"])})
     reqs.append({"suite": "c01", "op": "tables_of_trees", "nets": c03nets})
     idx.append(("c01.bridge", t0))
     # 3. C04 model on the implementation's tables
@@ -788,17 +1010,17 @@ def lean_requests(prob, out, rng):
                                    for ci, c in enumerate(chips)]})
             idx.append(("c04.mts", chips))
     # 4. stage hypotheses of pipeline_delivery on the implementation's intermediate results
+    V = out["o"]["V"]
     for i, (n, p) in enumerate(zip(nets, prob["nets"])):
-        pl = out["placements"]
+        pl = {v: out["placements"][obj] for v, obj in V.items() if obj in out["placements"]}
         sinks = []
         for v in p[1]:
             x, y = pl[v]
-            e = [e for e in exp[i][2] if False]
             dv = [d for d in prob["devices"] if d[0] == v]
             if dv:
                 sinks.append([v, x, y, 2, dv[0][3], 0])
             else:
-                sl = out["allocations"].get(v, {}).get(out["o"]["ids"][0])
+                sl = out["allocations"].get(V[v], {}).get(out["o"]["ids"][0])
                 sinks.append([v, x, y, 0, 0, 0] if sl is None else [v, x, y, 1, sl.start, sl.stop])
         reqs.append(dict(mj, suite="c03", op="valid_tree", sinks=sinks, source=list(pl[p[0]]),
                          tree=c03nets[i]["tree"]))
@@ -925,6 +1147,20 @@ def eval_problems(ctx, probs, register=True):
                 if r != idx[0][1]:
                     findings.append(("mismatch", "c01.c04-minfailed",
                                      "MinimisationFailedError %r but the C04 model says %s" % (idx[0][1], str(r)[:200])))
+        elif st == "DidNotReturn":
+            # the models of the sequential family, allocate, route, routing_tree_to_tables and the minimisers are
+            # proved to terminate (seqPlace_terminates, alloc_only_failure, route_only_failure, tables_total,
+            # minimiseTable_total): an implementation call that does not return there is a finding; the annealer's
+            # schedule, the RCM order functions and the random placer's draws are not covered by a theorem
+            in_place = "placements" not in out
+            what = "the pipeline did not return (%s) at stage %s%s" % (
+                out.get("traceback"), out.get("stage"), ", inside the placer" if in_place else "")
+            if in_place and prob["cfg"]["placer"] in ("sa-python", "sa-c", "rcm", "rand"):
+                findings.append(("mismatch", "c01.did-not-return-unproved-placer", what))
+            else:
+                findings.append(("violation", "did-not-return", what))
+        elif st == "InjectedFault":
+            tags.append("injected_fault_at_" + str(out["error"]))
         elif st not in DOCUMENTED:
             findings.append(("mismatch", "c01.pipeline-exception",
                              "pipeline raised undocumented %s at stage %s: %s" % (st, out.get("stage"), out.get("traceback", "")[-600:])))
@@ -937,7 +1173,7 @@ def eval_problems(ctx, probs, register=True):
 def register_result(ctx, prob, st, findings, tags, nontriv, out):
     cfg = prob["cfg"]
     ctx.traces += 1
-    ctx.tag("status_" + st, "placer_" + cfg["placer"], "api_" + cfg["api"], "radius_%d" % cfg["radius"],
+    ctx.tag("status_" + st, "placer_" + cfg["placer"], "api_" + cfg["api"], "radius_%s" % (cfg["radius"],),
             "methods_" + cfg["methods"], "target_%s" % (cfg["target"],), *tags)
     res = cfg.get("res") or {}
     ctx.tag("core_resource_" + ("default" if res.get("cores") is None else "custom_" + res["cores"][0]),
@@ -952,6 +1188,13 @@ def register_result(ctx, prob, st, findings, tags, nontriv, out):
         ctx.tag("manual_route_call_" + cfg.get("route_call", "pos"), "manual_tables_api_" + cfg.get("tables_api", "rt2t"))
     if cfg.get("apps"):
         ctx.tag("with_vertices_applications")
+    ctx.tag("vertex_kind_" + (cfg.get("vkind") or "int"), "collections_variant_%d" % (cfg.get("coll") or 0),
+            "sdram_around_2^%s" % cfg.get("big") if cfg.get("big") else "sdram_ordinary")
+    for flag in ("subclass", "states", "memvar", "omit", "big_weight"):
+        if cfg.get(flag):
+            ctx.tag("option_" + flag)
+    if cfg.get("omit") and cfg.get("kwargs_style") == "dict" and cfg["api"] in ("manual", "manual-sysinfo"):
+        ctx.tag("stages_called_by_keyword")
     if st != "ok":
         ctx.tag("fail_%s_at_%s" % (st, out.get("stage")))
     viol = {}
@@ -1039,9 +1282,10 @@ RES_INDEX = ("Cores", "SDRAM", "SRAM")          # resource numbering of the mode
 
 
 def pipe_cfg(rng):
-    return dict(placer="sequential", radius=rng.choice(RADII), methods=rng.choice(["default", "default", "rd", "oc", "none"]),
+    return dict(placer="sequential", radius=rng.choice([0, 1, 2, 20, True, None]), methods=rng.choice(["default", "default", "rd", "oc", "none"]),
                 target=rng.choice([None, None, None, "large", "large", "exact", "small", 0]), target_dict=rng.random() < 0.5,
-                api="manual", res=gen_res_ids(rng))
+                api="manual", res=gen_res_ids(rng),
+                **{k: v for k, v in gen_kinds(rng).items() if k in ("vkind", "subclass", "coll", "big", "memvar", "big_weight")})
 
 
 def gen_pipe_problem(rng, sizes, faulty=False):
@@ -1100,14 +1344,17 @@ def run_manual_recorded(prob):
     out = dict(o=o, methods=METHODS[cfg["methods"]], per_net=per_net, tape=tape)
     geometry.random = rutils.random = fake
     ner.ner_net, ner.copy_and_disconnect_tree = w_ner_net, w_copy
+    from . import common
+    lim = common.cpu_limit(cpu_budget(prob))
     try:
+        lim.__enter__()
         out["stage"] = "place"
         out["placements"] = sequential.place(o["vr"], o["nets"], o["machine"], o["cs"])
         out["stage"] = "allocate"
         out["allocations"] = pr.allocate(o["vr"], o["nets"], o["machine"], o["cs"], out["placements"])
         out["stage"] = "route"
         out["routes"] = pr.route(o["vr"], o["nets"], o["machine"], o["cs"], out["placements"], out["allocations"], Cores,
-                                 radius=cfg["radius"])
+                                 **({} if cfg["radius"] is None else {"radius": cfg["radius"]}))
         out["stage"] = "tables"
         out["tables0"] = routing_tree_to_tables(out["routes"], o["net_keys"])
         out["stage"] = "minimise"
@@ -1123,6 +1370,11 @@ def run_manual_recorded(prob):
         out["status"] = "ok"
     except (ImportError, SyntaxError):
         raise
+    except common.ImplHang as e:
+        _HANGS[0] += 1
+        out["status"] = "DidNotReturn"
+        out["error"] = e
+        out["traceback"] = str(e)
     except Exception as e:      # noqa
         out["status"] = type(e).__name__
         out["error"] = e
@@ -1130,6 +1382,7 @@ def run_manual_recorded(prob):
             import traceback
             out["traceback"] = traceback.format_exc()[-1500:]
     finally:
+        lim.__exit__()
         geometry.random, rutils.random, ner.ner_net, ner.copy_and_disconnect_tree = orig
     return out
 
@@ -1141,7 +1394,8 @@ def pipe_request(prob, out):
     o = out["o"]
     Cores, SDRAM, SRAM = o["ids"]
     ridx = {Cores: 0, SDRAM: 1, SRAM: 2}
-    vr = [[v, [[ridx[r], int(a)] for r, a in d.items()]] for v, d in o["vr"].items()]
+    Vinv = o["Vinv"]
+    vr = [[Vinv[v], [[ridx[r], int(a)] for r, a in d.items()]] for v, d in o["vr"].items()]
     m = o["machine"]
     vec = lambda d: [int(d[Cores]), int(d[SDRAM]), int(d[SRAM])]
     cs = []
@@ -1150,11 +1404,11 @@ def pipe_request(prob, out):
             cs.append({"t": "res", "r": ridx[c.resource], "start": c.reservation.start, "stop": c.reservation.stop,
                        "c": None if c.location is None else list(c.location)})
         elif isinstance(c, LocationConstraint):
-            cs.append({"t": "loc", "v": c.vertex, "c": list(c.location)})
+            cs.append({"t": "loc", "v": Vinv[c.vertex], "c": list(c.location)})
         elif isinstance(c, RouteEndpointConstraint):
-            cs.append({"t": "ep", "v": c.vertex, "route": int(c.route)})
+            cs.append({"t": "ep", "v": Vinv[c.vertex], "route": int(c.route)})
         elif isinstance(c, SameChipConstraint):
-            cs.append({"t": "same", "vs": list(c.vertices)})
+            cs.append({"t": "same", "vs": [Vinv[v] for v in c.vertices]})
     per = out["per_net"]
     tape = out["tape"]
     oracle = []
@@ -1177,7 +1431,7 @@ def pipe_request(prob, out):
             "exc": [[list(c), vec(d)] for c, d in m.chip_resource_exceptions.items()],
             "dead": sorted(map(list, m.dead_chips)), "dead_links": [[x, y, int(l)] for x, y, l in sorted(m.dead_links)],
             "cs": cs, "nets": [[n[0], list(n[1]), n[3], n[4]] for n in prob["nets"]], "core_res": 0,
-            "placer": {"t": "seq", "vo": None, "co": None}, "radius": prob["cfg"]["radius"],
+            "placer": {"t": "seq", "vo": None, "co": None}, "radius": radius_value(prob["cfg"]["radius"]),
             "oracle": oracle, "minimise": mini}
 
 
@@ -1219,9 +1473,10 @@ def eval_pipe_problems(ctx, probs):
             else:
                 mo = r["ok"]
                 pl = [[v, [c[0], c[1]]] for v, c in mo["placement"]]
-                ipl = [[v, list(c)] for v, c in out["placements"].items()]
+                Vinv = out["o"]["Vinv"]
+                ipl = [[Vinv[v], list(c)] for v, c in out["placements"].items()]
                 al = {v: sorted(map(tuple, va)) for v, va in mo["alloc"]}
-                ial = {v: sorted((ridx[r_], sl.start, sl.stop) for r_, sl in va.items())
+                ial = {Vinv[v]: sorted((ridx[r_], sl.start, sl.stop) for r_, sl in va.items())
                        for v, va in out["allocations"].items()}
                 t0 = tables_c04(out["tables0"])
                 t1 = tables_c04(out["tables1"])
@@ -1249,6 +1504,10 @@ def eval_pipe_problems(ctx, probs):
                     tags.append("pipe_tables_changed")
                 if any(pn["order"] for pn in out["per_net"]):
                     tags.append("pipe_repaired")
+        elif st == "DidNotReturn":
+            ctx.violation("did-not-return", "hand-chained pipeline (sequential placer) did not return at stage %s: %s; "
+                          "every stage of the model pipeline is proved to terminate" % (out.get("stage"), out.get("traceback")),
+                          prob)
         else:
             want = pipe_expected_error(out)
             if want is None:
